@@ -292,8 +292,19 @@ Wend(j, q, r) ==
   IN IF a >= b THEN RZero ELSE RQ(IPow(b - a, j + q) * PolyNum(j, q, a, b), IPow(b, j + q) * PolyDen(q, b))
 Radii == << <<0, 1>>, <<1, 4>>, <<1, 2>>, <<3, 4>>, <<1, 1>>, <<5, 4>> >>
 
+\* ---- assemblies of a joint covariance ----
+\* A prediction above max_eager_kernel_size requests the blocks of the joint covariance over [x1; x2] separately - K(x1, x1),
+\* K(x1, x2), K(x2, x2).  The assembled matrix must be THE Gram matrix of the stacked points (and therefore symmetric PSD like it).
+\* Entries as labels: <<p, q>> = k(point p, point q) of the stacked sequence.
+Splits == {<<2, 2>>, <<1, 3>>, <<3, 3>>, <<2, 4>>}             \* (n1, n2) in units of points: equal and unequal block sizes
+AsmEntry(byShape, s, i, j) ==                                  \* entry (i, j) of the cross block K(x1, x2)
+  IF byShape /\ s[1] = s[2] /\ i = j THEN <<i, i>>             \* the slip "x1 is x2" decided from the shapes: the diagonal is k(x, x)
+  ELSE <<i, s[1] + j>>
+AssembledIsGram(byShape, s) == \A i \in 1..s[1], j \in 1..s[2] : AsmEntry(byShape, s, i, j) = <<i, s[1] + j>>
+
 Says(cell) ==
   [psd |-> TRUE,                                              \* in its documented domain every cell is PSD
+   splits |-> Splits,                                         \* ... and so is the joint assembled from separately requested blocks
    j   |-> IF cell.fam = "pwpoly" THEN CodeJ(cell) ELSE 0,
    phi |-> IF cell.fam = "pwpoly" THEN [k \in 1..Len(Radii) |-> Wend(CodeJ(cell), cell.arg, Radii[k])] ELSE <<>>]
 
@@ -302,6 +313,10 @@ LatticeInit ==
   /\ lik = "-" /\ mode = "-" /\ obs = <<>> /\ fixed = <<>> /\ hist = <<>> /\ cov = <<>> /\ prev = <<>>
 
 DomainOK  == Part = "lattice" => InDomain(c) /\ out.psd
+AssemblyOK == Part = "lattice" => /\ \A s \in out.splits : AssembledIsGram(FALSE, s)
+                                  /\ \A s \in out.splits : (AssembledIsGram(TRUE, s) <=> s[1] # s[2])   \* only equal block sizes expose the slip
+                                  /\ \E s \in out.splits : s[1] = s[2]
+                                  /\ \E s \in out.splits : s[1] # s[2]
 SupportOK == Part = "lattice" /\ c.fam = "pwpoly" =>
                /\ CodeJ(c) >= MinJ(c.d, c.arg)
                /\ out.phi[1] = ROne /\ out.phi[5] = RZero /\ out.phi[6] = RZero      \* k(0) = 1, support = unit ball
